@@ -2,8 +2,11 @@
  *
  *   pol cf <dir> <spec>            master policy: creator_file answer for objects under /c20/<dir>/
  *   pol vs <oid> <uid> <spec>      master policy: valid_seteuid answer for (object, uid); `*` wildcards, `-` = ""
+ *   pol root <name> | pol bb <name> master policy: get_root_uid() / get_bb_uid() answer this from now on (master reload)
  *   script <name> <op>;<op>..|-    ops run by create() of the object with that file name (`<path>` blueprint,
  *                                  `<path>#` its clones); `-` removes the script
+ *   cfg [nobb] [noroot] [simul]    first line of a case: master without get_bb_uid() / get_root_uid(), simul_efun object
+ *                                  /c20/simul registered as actor `se` (the plugin runs the case with the matching conf)
  *   do <oid> <op>                  run one op (see harness/mudlib/c20/body.h) in the object registered as <oid>
  *                                  (`m` = the master object), then log getuid/geteuid of every registered object
  *
@@ -27,6 +30,8 @@ static int c20_cmd (char *line)
   char copy[4096];
   char *tok[8];
   int n;
+  if (!strncmp (line, "cfg ", 4) || !strcmp (line, "cfg"))
+    return 1;                   /* configuration of the case: chosen by the plugin (which conf file), nothing to do here */
   if (strncmp (line, "do ", 3) && strncmp (line, "pol ", 4) && strncmp (line, "script ", 7))
     return 0;
   c20_init ();
@@ -46,9 +51,9 @@ static int c20_cmd (char *line)
         vh_out ("r !harness");
       return 1;
     }
-  if (!strcmp (tok[0], "pol") && n >= 4 && n <= 5)
+  if (!strcmp (tok[0], "pol") && n >= 3 && n <= 5)
     {
-      char *args[4] = { tok[1], tok[2], tok[3], n == 5 ? tok[4] : (char *) "" };
+      char *args[4] = { tok[1], tok[2], n >= 4 ? tok[3] : (char *) "", n == 5 ? tok[4] : (char *) "" };
       if (vh_apply_str (master_ob, "set_pol", 4, args, 0, 0))
         vh_out ("r !harness");
       return 1;
